@@ -97,7 +97,7 @@ EXPORT errno_t _memmove16_s_chk(uint16_t *dest, rsize_t dmax,
 
     CHK_DEST_MEM_NULL("memmove16_s")
     CHK_DMAX_MEM_ZERO("memmove16_s")
-    smax = slen * 2;
+    smax = SAFEC_MUL_SAT(slen, 2);
     if (destbos == BOS_UNKNOWN) {
         CHK_DMAX_MEM_MAX("memmove16_s", RSIZE_MAX_MEM)
         BND_CHK_PTR_BOUNDS(dest, dmax);
